@@ -259,6 +259,30 @@ impl W {
         self.st.wallet().chain_height().unwrap().map(u32::from)
     }
 
+    /// priority as the scan_queue table stores it (0 Ignored, 1 Scanned, 2 Historic, 3 OpenAdjacent, 4 FoundNote, 5 ChainTip, 6 Verify)
+    fn prio(code: i64) -> zcash_client_backend::data_api::scanning::ScanPriority {
+        use zcash_client_backend::data_api::scanning::ScanPriority::*;
+        match code { 0 => Ignored, 1 => Scanned, 2 => Historic, 3 => OpenAdjacent, 4 => FoundNote, 5 => ChainTip, _ => Verify }
+    }
+
+    /// `prune_scan_queue_below(h, retain)`; `retain` < 0: None
+    pub fn prune_queue(&mut self, h: u32, retain: i64) -> Result<Result<u64, String>, String> {
+        let st = &mut self.st;
+        let r = if retain < 0 { None } else { Some(Self::prio(retain)) };
+        guarded(move || st.wallet_mut().prune_scan_queue_below(BlockHeight::from(h), r).map_err(|e| format!("{e:?}")))
+    }
+
+    /// `queue_rescans(ranges, priority)` (absolute heights, non-empty ranges)
+    pub fn queue_rescans(&mut self, ranges: &[(u32, u32)], prio: i64) -> Result<Result<(), String>, String> {
+        let st = &mut self.st;
+        let rs: Vec<std::ops::Range<BlockHeight>> = ranges.iter().map(|(s, e)| BlockHeight::from(*s)..BlockHeight::from(*e)).collect();
+        let p = Self::prio(prio);
+        guarded(move || {
+            let ne = nonempty::NonEmpty::from_vec(rs).expect("at least one range");
+            st.wallet_mut().db_mut().queue_rescans(ne, p).map_err(|e| format!("{e:?}"))
+        })
+    }
+
     /// Projection of the wallet database and of the public balance API onto the abstract state.
     /// Heights are relative to `base`; notes and transactions are named by the ids the harness
     /// chain gave them (-1: a row the harness chain knows nothing about).
